@@ -5,6 +5,7 @@ Each `Driver/<X>.lean` provides `step<X> : String → List String → Option Str
 -/
 import Driver.Headers
 import Driver.Registry
+import Driver.Thrift
 import Driver.OutBuf
 import Driver.Processor
 import Driver.ContextHeap
@@ -12,11 +13,12 @@ import Driver.Context
 import Driver.Middleware
 import Driver.Adapter
 import Driver.Audit
+import Driver.NatsServer
 
 open Driver
 
 def steppers : List (String → List String → Option String) :=
-  [stepHeaders, stepRegistry, stepOutBuf, stepProcessor, stepContext, stepContextHeap, stepMiddleware, stepAdapter, stepAudit]
+  [stepHeaders, stepRegistry, stepThrift, stepOutBuf, stepProcessor, stepContext, stepContextHeap, stepMiddleware, stepAdapter, stepAudit, stepNatsServer]
 
 def step (line : String) : String :=
   match (line.splitOn " ").filter (· ≠ "") with
